@@ -14,7 +14,43 @@ import (
 // absBytes stands for x.Bytes() of a symbolic non-negative integer whose byte
 // length is not known: the minimal big-endian encoding of |t|.
 type absBytes struct {
-	t *smt.Term // magnitude (Int, >= 0)
+	t   *smt.Term // magnitude (Int, >= 0)
+	mat []value   // concrete-length bytes once the length has been case-split
+}
+
+// materialize case-splits the byte length of an abstract byte string (bounded) and
+// returns its bytes as symbolic byte values.
+func (p *pathRun) materialize(fr *frame, ab *absBytes) []value {
+	if ab.mat != nil {
+		return ab.mat
+	}
+	l := p.byteLen(ab.t).(symInt)
+	n := int(p.concretize(fr, l, "length of an abstract byte string"))
+	if n > 80 {
+		panic(unsupported(fmt.Sprintf("abstract byte string of length %d", n)))
+	}
+	c := p.ctx
+	// the definition of the byte length at the chosen value
+	if n > 0 {
+		p.axiom("bytelen-exact", c.And(c.Ge(ab.t, c.IntC(pow2(uint(8*(n-1))))), c.Lt(ab.t, c.IntC(pow2(uint(8*n))))))
+	} else {
+		p.axiom("bytelen-exact", c.Eq(ab.t, c.IntC64(0)))
+	}
+	p.unchecked = true
+	p.checkFeasible("byte length case split")
+	out := make([]value, n)
+	if n > 0 {
+		bits := p.lowBits(ab.t, 8*n)
+		for i := 0; i < n; i++ {
+			hi := 8*(n-i) - 1
+			out[i] = normInt(types.Uint8, c.Extract(hi, hi-7, bits))
+		}
+		p.noteFits(ab.t, pow2(uint(8*n)))
+	} else {
+		out = []value{}
+	}
+	ab.mat = out
+	return out
 }
 
 // absCat is a concatenation of byte strings some of which are abstract.
@@ -237,6 +273,7 @@ func (p *pathRun) bigExp(fr *frame, recv value, x, y, m bigval) value {
 			return (*value)(nil)
 		}
 		inv := c.Fresh("inv", smt.Int)
+		p.markNonNeg(inv)
 		p.axiom("inverse-def", c.And(c.Ge(inv, c.IntC64(0)), c.Lt(inv, am), c.Eq(c.Mod(c.Mul(xt, inv), am), c.Mod(c.IntC64(1), am))))
 		p.registerInverse(inv, xt, am)
 		base = inv
